@@ -818,16 +818,50 @@ func ruleE6(c *Ctx) {
 		return ok && g.Name() == name
 	}
 	rejected := false
-	for _, b := range initFn.Blocks {
-		ret, ok := b.Instrs[len(b.Instrs)-1].(*ssa.Return)
-		if !ok || !returnsDefiniteError(initFn, ret) {
-			continue
-		}
-		dominatingConds(b, func(cond ssa.Value, taken bool, at *ssa.BasicBlock) {
-			if taken && loadsGlobal(cond, "nullInput") {
-				rejected = true
+	// in initCommand itself, or in a helper of the command package whose error initCommand returns
+	rejectIn := []*ssa.Function{initFn}
+	eachInstr(initFn, func(ins ssa.Instruction) {
+		if call, ok := ins.(*ssa.Call); ok {
+			if h := call.Call.StaticCallee(); h != nil && h.Blocks != nil && funcPkgPath(h) == cmdPath && errorResultIndex(h.Signature) >= 0 && errorReachesReturn(call, 0) {
+				rejectIn = append(rejectIn, h)
 			}
-		})
+		}
+	})
+	for _, f := range rejectIn {
+		for _, b := range f.Blocks {
+			ret, ok := b.Instrs[len(b.Instrs)-1].(*ssa.Return)
+			if !ok || !returnsDefiniteError(f, ret) {
+				continue
+			}
+			dominatingConds(b, func(cond ssa.Value, taken bool, at *ssa.BasicBlock) {
+				if taken && loadsGlobal(cond, "nullInput") {
+					rejected = true
+				}
+				// `case nullInput && !noFiles:` is built as a phi of the two tests: the phi is true only
+				// along an edge that was reached with nullInput true
+				if phi, isPhi := cond.(*ssa.Phi); isPhi && taken {
+					all, any := true, false
+					for i, e := range phi.Edges {
+						if k, isK := e.(*ssa.Const); isK && k.Value != nil && k.Value.String() == "false" {
+							continue
+						}
+						any = true
+						up := loadsGlobal(e, "nullInput")
+						edgeConds(phi.Block().Preds[i], phi.Block())(func(c2 ssa.Value, t2 bool, _ *ssa.BasicBlock) {
+							if t2 && loadsGlobal(c2, "nullInput") {
+								up = true
+							}
+						})
+						if !up {
+							all = false
+						}
+					}
+					if any && all {
+						rejected = true
+					}
+				}
+			})
+		}
 	}
 	if rejected {
 		r.Discharge("E6", "initCommand/nullInput-rejects-files", c.P.pos(initFn.Pos()), "an error return is guarded by nullInput (files with -n are rejected)")
